@@ -155,7 +155,11 @@ def c_effects(ctx, case):
 def _multiset(calls):
     out = {}
     for c in calls:
-        k = repr(c)
+        try:            # by value: g(True, j=0) and g(1, j=False) are the same call
+            hash(c)
+            k = c
+        except TypeError:
+            k = repr(c)
         out[k] = out.get(k, 0) + 1
     return out
 
